@@ -227,3 +227,40 @@ func init() {
 		Assumptions: append(append([]string{}, envAssumptions...), commonAssumptions[0], commonAssumptions[3], "bufio.Scanner is modelled as a reader of whole lines of the model file"),
 		Stubs:       []string{"os.Open/Create, (*os.File).Write/WriteString, bufio.Scanner, ioutil.ReadFile, filepath.Glob, sync.WaitGroup"}})
 }
+
+func init() {
+	tcBounds := map[string]string{
+		"threads":    "N tasks (quick 2, thorough 3), each of symbolic kind (normal / skipped because its output exists / streaming output) and symbolic core count 1..max",
+		"slots":      "maxConcurrentTasks symbolic in 1..M (quick M=3, thorough M=3)",
+		"schedule":   "one solver variable per step choosing the thread that moves, N x (longest thread) steps: every interleaving of the token-by-token acquisition is covered",
+		"thread ops": "extracted on this run from the real Task.Execute / IncConcurrentTasks / DecConcurrentTasks for every (kind, cores)",
+		"second method": "n real tasks as goroutines with real blocking channel/mutex semantics under delay-bounded scheduling (VxH06run)",
+	}
+	as := append(append([]string{}, envAssumptions...), commonAssumptions[0], commonAssumptions[3],
+		"a buffered send blocks iff the channel is full, a receive blocks iff it is empty, sync.Mutex is mutual exclusion; a thread that is enabled eventually runs (fairness of the Go scheduler)",
+		"the control flow of a task does not depend on values read from the slot channel (checked: the extraction must be a single path)")
+	regCheck(&Check{ID: "C06",
+		Quick: []H{
+			{Pkg: "scipipe", Fn: "VxTcThread", Params: p("kind", 0, "cores", 2, "max", 3), MustReach: []string{"traced"}, MustAssert: []string{"C06.capacity-is-maxConcurrentTasks"}},
+			{Pkg: "scipipe", Fn: "VxH06run", Params: p("n", 2, "max", 2, "preempt", 2), MustReach: []string{"ran"}, MustAssert: []string{"C06.all-slots-returned"}},
+		},
+		Thorough: []H{
+			{Pkg: "scipipe", Fn: "VxTcThread", Params: p("kind", 0, "cores", 2, "max", 3), MustReach: []string{"traced"}, MustAssert: []string{"C06.capacity-is-maxConcurrentTasks"}},
+			{Pkg: "scipipe", Fn: "VxH06run", Params: p("n", 3, "max", 3, "preempt", 2), MustReach: []string{"ran"}, MustAssert: []string{"C06.all-slots-returned"}},
+		},
+		TCQuick: [2]int{2, 3}, TCThorough: [2]int{3, 3},
+		Bounds: tcBounds, Outside: []string{"more than 3 concurrent tasks, more than 3 slots in the bounded model checking"}, Assumptions: as,
+		Stubs: []string{"slot channel and slot mutex in trace mode (operations recorded), command model marks B/E"}})
+	regCheck(&Check{ID: "C07",
+		Quick: []H{
+			{Pkg: "scipipe", Fn: "VxH07oversize", MustReach: []string{"ran"}, MustAssert: []string{"C07.oversize-rejected-not-hanging", "C07.fitting-cores-run"}},
+			{Pkg: "scipipe", Fn: "VxH06run", Params: p("n", 2, "max", 2, "preempt", 2), MustReach: []string{"ran"}, MustAssert: []string{"C07.no-deadlock"}},
+		},
+		Thorough: []H{
+			{Pkg: "scipipe", Fn: "VxH07oversize", MustReach: []string{"ran"}, MustAssert: []string{"C07.oversize-rejected-not-hanging", "C07.fitting-cores-run"}},
+			{Pkg: "scipipe", Fn: "VxH06run", Params: p("n", 3, "max", 3, "preempt", 2), MustReach: []string{"ran"}, MustAssert: []string{"C07.no-deadlock"}},
+		},
+		TCQuick: [2]int{2, 3}, TCThorough: [2]int{3, 3},
+		Bounds: tcBounds, Outside: []string{"more than 3 concurrent tasks, more than 3 slots in the bounded model checking", "fairness of the Go scheduler"}, Assumptions: as,
+		Stubs: []string{"slot channel and slot mutex in trace mode (operations recorded), command model marks B/E"}})
+}
